@@ -16,7 +16,9 @@ CHECKS = {
              "other than ValueError escapes a wire parser and nothing but ConnectionError/CancelledError escapes a receive root; (PROG) every "
              "cursor-driven parsing loop strictly advances (serial cursors only by modular steps); (COST) wire-controlled loop nests are tied to the datagram length or to local state; "
              "(TIMER) timer starters are preceded by cancel/guard on every path; (SIGN) counters decreased by received lengths are clamped before serialisation; (PREMISE) the rules the "
-             "exemption table cites (C01-DUP, C07-LEN, C10-BOUND) hold. "
+             "exemption table cites (C01-DUP, C07-LEN, C10-BOUND) hold; (NONE) Optional fields used in arithmetic are guarded (directly, by idiom, or through a paired sibling field); "
+             "(SERIAL) no raw arithmetic / comparison on wrapping counters on the receive path; (DECODE) every decoder of the registry handles av.FFmpegError and frames without data never reach a decoder; "
+             "(SACK) a SACK acknowledging TSNs never assigned is ignored. "
              "It does not decide memory growth over histories, native-library behaviour or wall-clock time.",
         ref="DESIGN.md section 3 C05 and section 9"),
     "C12": dict(
@@ -25,14 +27,14 @@ CHECKS = {
              "all-keys removal; route_rtp/route_rtcp hand out only table contents; route_rtp's decision equals the specified table over an "
              "enumerated abstract domain of table states; route_rtcp consults exactly the SSRC-bearing fields of each RTCP packet type (unknown SSRCs first / in between do not hide "
              "registered ones); a routing decision is consumed by the very next delivery; the router class evaluated on enumerated register/unregister/route "
-             "sequences agrees with a reference model (overlapping payload-type sets, latching, take-over). With "
+             "sequences agrees with a reference model (overlapping payload-type sets, latching, take-over); the transport registers a receiver with the SSRCs of its encodings and the payload types of all its codecs. With "
              "these, 'nothing is routed to an unregistered object' follows for every history; behaviour not determined by the tables is not decided.",
         ref="DESIGN.md section 3 C12"),
     "C14": dict(
         technique="finite-domain evaluation of state guards against the JSEP table; must-event (dominance) analysis for validate-before-mutate; call-graph may-write sets",
         text="Decides the guard table (24 cells + createAnswer + closed latch), the next-state literals, that every write to signalingState and "
              "the four description slots is dominated by __validate_description (and nothing called earlier may write them), that the m-line "
-             "match is order-sensitive, that close() latches before suspending, the description-slot updates per type, and that the per-section structural checks reject "
+             "match is order-sensitive, that close() latches and sets signalingState to closed before suspending, the description-slot updates per type, and that the per-section structural checks reject "
              "defective audio / video / application sections alike whatever the connection has been through before (history domain over the fields the check reads), and that the "
              "RTCSessionDescription constructor accepts exactly the four SDP types. These determine the state machine for all call sequences "
              "over the property's alphabet; pranswer/rollback and side effects outside the five slots are not decided.",
@@ -81,7 +83,7 @@ CHECKS["C15"] = dict(
     text="Decides: no division by zero, negative sqrt, bad index or unbounded REMB SSRC count can escape the estimator; _total changes only together with the "
          "buckets; the SSRC bookkeeping keeps the newest and evicts the oldest; the whole pipeline evaluated on packet histories gives identical estimates across the 24-bit send-time wrap; the latest measurement is recorded whenever one exists; update() returns the clamped value and the clamp / over-use cut respect the 1.5x+10kbit/s "
          "and 85 % bounds on a grid of values; float powers have bounded exponents; the receiver feeds the estimator for every stamped packet (stamp 0 included) with its size / SSRC / arrival time and "
-         "forwards its result as REMB. Two numeric denominators and one power are exempted with reasons. It does not decide the numeric behaviour of the filter.",
+         "forwards its result as REMB; the over-use verdict used for the update is read after detect(); after every packet of bursty / sparse histories the rate counter holds exactly the bytes of the last window. Two numeric denominators and one power are exempted with reasons. It does not decide the numeric behaviour of the filter.",
     ref="DESIGN.md section 3 C15")
 CHECKS["C16"] = dict(
     technique="finite-domain evaluation of descriptor writer/reader over the complete flag space and of the packetisers over boundary size classes; linear length forms for the STAP-A budget",
@@ -92,7 +94,7 @@ CHECKS["C16"] = dict(
     ref="DESIGN.md section 3 C16")
 CHECKS["C18"] = dict(
     technique="data-dependence and guard (must-event) rules, serial qualifier analysis, grid evaluation of fraction_lost against RFC 3550 A.3, interval analysis of the packed report fields",
-    text="Decides: the reported highest sequence includes wrap cycles and the cycle counter only advances for in-order packets; timestamp differences are reduced "
+    text="Decides: the reported highest sequence includes wrap cycles and the cycle counter accumulates and only advances for in-order packets; timestamp differences are reduced "
          "modulo 2^32; fraction_lost equals the RFC formula on a grid incl. duplicates/late arrivals; packets_lost, highest_sequence, jitter and lsr provably fit "
          "their RTCP fields; dlsr is 0 or the scaled delay and within 32 bits on a grid of delays; StreamStatistics equals an RFC 3550 reference on enumerated packet sequences (losses, duplicates, late copies of the newest packet, wraps) and the report block _run_rtcp builds from it carries those values through serialise / parse. Numeric equality over histories is not decided.",
     ref="DESIGN.md section 3 C18")
@@ -104,7 +106,8 @@ CHECKS["C01"] = dict(
          "invertible; _send assigns consecutive TSNs modulo 2^32, B/E/U flags and one stream sequence number per message and its fragments tile the message for "
          "sizes around the fragment boundary; the stream id used for delivery is the chunk's; stream resets clear the per-stream tables; TSN / stream-sequence "
          "arithmetic is wrap-safe (C17 rule set); for every arrival order (plus a duplicate) of interleaved messages on two streams _receive_data_chunk delivers each message "
-         "once, intact, in order and leaves nothing queued; abandonment / FORWARD-TSN never touch other messages (C06 rules); lost chunks keep being retransmitted (C02 timer / kick / flight-size rules). Arrival orders beyond the enumerated families "
+         "once, intact, in order and leaves nothing queued; abandonment / FORWARD-TSN never touch other messages (C06 rules); lost chunks keep being retransmitted and the receive state is only initialised by the handshake (C02 rules); sender and receiver closed into a loop deliver every reliable message once, "
+         "intact and in order under every single fault and every double loss of the enumerated workload (113 schedules, TSN and stream-sequence wraps included). Arrival orders beyond the enumerated families "
          "are not decided.",
     ref="DESIGN.md section 3 C01")
 CHECKS["C04"] = dict(
@@ -113,7 +116,8 @@ CHECKS["C04"] = dict(
          "hand-over of decrypted bytes is guarded by a condition that holds only in CONNECTED (or by the SRTP session only start() can create); sends check "
          "CONNECTED; the fingerprint policy equals 'at least one supported, all supported match, case-insensitive' on 900 enumerated lists; both roles derive "
          "the RFC 5764 mirror-image key/salt slices for the three profiles; SRTP failures deliver nothing; the first-byte demultiplexer equals RFC 7983 for all 256 values and "
-         "is_rtcp separates RTCP from negotiable RTP payload types. It does not decide what OpenSSL/libsrtp do.",
+         "is_rtcp separates RTCP from negotiable RTP payload types; one turn of the receive pump, evaluated for every datagram class x transport state, delivers exactly the authenticated and parsed packets - "
+         "each RTCP packet of a compound to each recipient once - and application data only when connected. It does not decide what OpenSSL/libsrtp do.",
     ref="DESIGN.md section 3 C04")
 CHECKS["C08"] = dict(
     technique="reader/writer struct-format and field-order extraction; finite-domain evaluation of parameter and padding arithmetic over all length residues; must-event guard on the checksum gate; registry constants",
@@ -137,7 +141,8 @@ CHECKS["C11"] = dict(
          "constant; a retransmission is sent only for the exact sequence number asked for; unwrap_rtx is dominated by the payload-length, apt and SSRC-mapping "
          "checks and the media codec is used afterwards; statistics see the wire packet while NACK generation and the jitter buffer see the unwrapped one; "
          "serial discipline in the RTP sender/receiver; the sender's RTX payload type is the one whose apt is the encoding codec (evaluated on codec-list layouts); media packets and unwrapped "
-         "retransmissions reach the jitter buffer exactly once; the repair loop closed over both ends (lost sets x wraps x RTX on/off) delivers every packet once and asks only for lost ones; shared rules: NACK wire format and RTX wrapping (C07), jitter-buffer frame integrity on enumerated schedules (C10). It does not decide eventual recovery or byte identity of decoder input under loss schedules.",
+         "retransmissions reach the jitter buffer exactly once; the repair loop closed over both ends (lost or overtaken packets x wraps x RTX on/off) delivers every packet and asks only for lost ones; the video jitter buffer is at least as large as the NACK window; "
+         "_retransmit never sends a stale history slot; shared rules: NACK wire format and RTX wrapping (C07), jitter-buffer frame integrity on enumerated schedules (C10). It does not decide eventual recovery or byte identity of decoder input under loss schedules.",
     ref="DESIGN.md section 3 C11")
 
 CHECKS["C09"] = dict(
@@ -155,7 +160,8 @@ CHECKS["C03"] = dict(
          "every path, looked up by the remote mid, and BUNDLE lists the mids in order; find_common_codecs/header_extensions select only offered entries with the offerer's "
          "payload types/ids on boundary scenarios (96, 127, static, RTX/base pairs, H264 profiles); the ICE role is assigned once per transport; bundling moves each object once (guard + latch); DTLS roles are definite and "
          "complementary; description slots are updated per type; RTCIceTransport.start() returns only after the connection attempt (its own or the one in progress) is over and __connect() orders ICE, DTLS "
-         "and media starts. It does not decide that every configuration negotiates and connects.",
+         "and media starts; every remote offer records the offered direction (first offer, re-offer, swapped offerer); the BUNDLE step evaluated on object graphs puts every member on the primary's transport for "
+         "every creation order and stops exactly the unused transports. It does not decide that every configuration negotiates and connects.",
     ref="DESIGN.md section 3 C03")
 
 CHECKS["C02"] = dict(
@@ -165,7 +171,8 @@ CHECKS["C02"] = dict(
          "every path of start/restart, after every data (re)transmission, cleared and followed by _transmit on expiry, cancelled only with nothing outstanding; every "
          "producer of the three queues starts its consumer on every exit, accepted SACKs reach flush and transmit; cwnd never drops below one MTU; the receive loop cannot be killed by a "
          "repeated chunk (timer typestate) or a negative window (sign rule); wrap-safe sequence arithmetic; the receive state is only re-initialised under an association-state guard; nothing complete stays queued for the enumerated arrival orders; the sender's real transmit / SACK / T3 / abandon code evaluated on loss scenarios (reliable and partially "
-         "reliable messages, fast-retransmit and T3 paths) never counts more bytes in flight than are outstanding and transmits new data once everything is acknowledged. It does not decide "
+         "reliable messages, fast-retransmit and T3 paths) never counts more bytes in flight than are outstanding and transmits new data once everything is acknowledged; a SACK beyond the TSNs assigned is ignored; "
+         "the closed sender/receiver loop drains under every single fault and double loss of the enumerated workload; per-channel reliability parameters do not leak between messages. It does not decide "
          "delivery in bounded time or absence of stalls over all fault histories.",
     ref="DESIGN.md section 3 C02")
 
@@ -175,7 +182,8 @@ CHECKS["C06"] = dict(
          "iterate over a snapshot of the sent queue; FORWARD-TSN is built only from the abandoned prefix and sent before data; for every enumerated layout (message of 1..4 "
          "fragments, 1..k sent, trigger fragment, ordered/unordered, reliable prefix or not) exactly that message's fragments - sent or queued - are abandoned and the FORWARD-TSN "
          "is exact (also when the first fragments were already acknowledged or a gap-acked reliable chunk follows); the FORWARD-TSN is rebuilt until the peer has caught up and not afterwards; for every subset of already received chunks of two reliable messages next to an abandoned one the receiver delivers them once, intact, in order; a partly received abandoned message (ordered or unordered) is dropped and the next message comes out; a repeated "
-         "FORWARD-TSN never rewinds a stream. It does not decide behaviour under fault schedules beyond these families.",
+         "FORWARD-TSN never rewinds a stream, a FORWARD-TSN over a message the receiver holds complete keeps later messages in order; the closed sender/receiver loop (113 fault schedules) delivers what the "
+         "property allows and everything sent after the network recovered. It does not decide behaviour under fault schedules beyond these families.",
     ref="DESIGN.md section 9.4 C06")
 
 NOT_APPLICABLE = {}
